@@ -13,7 +13,7 @@ from scipy.interpolate import CubicSpline
 from scipy.optimize import brentq
 
 from .. import PropertyViolation, refphys
-from ..datasets import Dataset, Workdir, dataset_specs, write_input01, write_input02
+from ..datasets import Dataset, ReusedWorkdir, Workdir, dataset_specs, write_input01, write_input02
 from ..reflaue import complete
 from ..refmodel import eulerian, lsq_poly, polyder_inc, polyval_inc
 from ..reftensor import KEYS21, is_positive_definite, tensor_from_keys, vrh
@@ -21,7 +21,7 @@ from ..tables import parse_frame_stdout
 
 ID = "C18"
 SHARDS = {"quick": 8, "thorough": 16}
-RULE = ("static data sets as C05 (5-9 volumes, BM3 energies, PD static tensors of nine systems), modes none/volume/pressure, grid "
+RULE = ("static data sets as C05 (5-9 volumes, BM3 energies, PD static tensors of nine systems), modes none/volume/pressure (the same two file paths rewritten for every case), grid "
         "sizes 11-401, pressure grids inside the fitted range (10 % margins), with/without static table (at its own volumes, at the phonon volumes, or at the phonon volumes printed with two decimals), -s system, --cellmass; "
         "non-trivial = pressure or volume mode with a static table and a non-cubic system; distinct by the drawn case")
 ASSUMPTIONS = [
@@ -80,7 +80,7 @@ def oracle(ctx, s):
         if s["sample"]:
             args += ["--delta-p-sample", repr(delta_p * s["sample"])]
     system = s["system"] if (s["apply_system"] and s["with_table"]) else None
-    with Workdir() as wd, warnings.catch_warnings():
+    with ReusedWorkdir("c18") as wd, warnings.catch_warnings():      # same paths as the previous case, files rewritten
         warnings.simplefilter("ignore")
         f1 = os.path.join(wd, "input01")
         f2 = os.path.join(wd, "input02")
